@@ -62,6 +62,7 @@ fn panic_finding(target: &str, block: &str, pi: &PanicInfo) -> Finding {
 }
 
 fn drive_and_judge(target: &str, mut b: Built, sched: &[Step], feed: Sz, out: &mut Vec<Finding>) {
+    let is_source = b.ins.is_empty();
     let name = b.name.clone();
     let opts = DriveOpts {
         drain_feed: feed,
@@ -70,6 +71,9 @@ fn drive_and_judge(target: &str, mut b: Built, sched: &[Step], feed: Sz, out: &m
         ..DriveOpts::default()
     };
     let log = drive(&mut b, sched, &opts);
+    if std::env::var_os("VERIF_DEBUG").is_some() {
+        eprintln!("{name}: ncalls={} findings={:?} eof_at={:?} last={:?}", log.ncalls, log.findings, log.eof_at, log.calls.iter().rev().take(4).map(|c| (format!("{:?}", c.verdict), c.named)).collect::<Vec<_>>());
+    }
     if let Some(pi) = &log.panic {
         out.push(panic_finding(target, &name, pi));
     }
@@ -77,6 +81,15 @@ fn drive_and_judge(target: &str, mut b: Built, sched: &[Step], feed: Sz, out: &m
         if kind == "idle-spin" {
             out.push((format!("C15/{target}/spin/{name}"), format!("{name}: {msg}")));
         }
+    }
+    // a finite source whose output is always drained must finish; one that stops moving data
+    // without reporting EOF (it keeps asking to be called for room it already has) is what
+    // the multithreaded runner turns into a busy loop
+    if is_source && !log.step_budget_hit && log.panic.is_none() && log.error.is_none() && log.eof_at.is_none() && log.ncalls >= 3 {
+        out.push((
+            format!("C15/{target}/never-finishes/{name}"),
+            format!("{name} stopped producing after {} work() calls without ever returning EOF (last verdicts: {:?})", log.ncalls, log.calls.iter().rev().take(3).map(|c| format!("{:?}", c.verdict)).collect::<Vec<_>>()),
+        ));
     }
     if log.step_budget_hit {
         out.push((
@@ -113,7 +126,8 @@ pub fn run_target(target: &str, data: &[u8]) -> Vec<Finding> {
     let size = Some(4096 * (1 + (h(3) as usize >> 6)));
     // stingy feeding costs one work() call per unit: keep those inputs short
     let body = if matches!(feed, Sz::One | Sz::Frac(3000)) { &body[..body.len().min(200)] } else { body };
-    let data = if matches!(feed, Sz::One | Sz::Frac(3000)) { &data[..data.len().min(400)] } else { data };
+    // (file contents are not fed through a stream: never cut them)
+    let data = if matches!(feed, Sz::One | Sz::Frac(3000)) && !target.starts_with("sigmf") { &data[..data.len().min(400)] } else { data };
     match target {
         "au_decode" => {
             let spec = BlockSpec::AuDecode;
@@ -152,15 +166,31 @@ pub fn run_target(target: &str, data: &[u8]) -> Vec<Finding> {
             let sc = Scratch::new();
             let path = sc.path("fuzz.sigmf");
             if std::fs::write(&path, data).is_ok() {
-                rustradio::verif::set_stream_size(size);
-                let r = catch(|| rustradio::sigmf::SigMFSource::<Complex>::new(&path, None));
-                rustradio::verif::set_stream_size(None);
-                match r {
-                    Err(pi) => out.push(panic_finding(target, "SigMFSource::new", &pi)),
-                    Ok(Err(_)) => {}
-                    Ok(Ok((src, o))) => {
-                        let b = Built { scratch: None, sink_probe: None, name: "SigMFSource".into(), block: Box::new(src), ins: vec![], outs: vec![Box::new(SOut::new(o))] };
-                        drive_and_judge(target, b, &[], feed, &mut out);
+                // default repeat (once), twice (a truncated last sample meets the next pass), never
+                for rep in [None, Some(2u64), Some(0)] {
+                    rustradio::verif::set_stream_size(size);
+                    let p2 = path.clone();
+                    let r = catch(move || match rep {
+                        None => rustradio::sigmf::SigMFSource::<Complex>::new(&p2, None),
+                        Some(k) => rustradio::sigmf::SigMFSourceBuilder::<Complex>::new(p2).repeat(rustradio::Repeat::finite(k)).build(),
+                    });
+                    rustradio::verif::set_stream_size(None);
+                    match r {
+                        Err(pi) => out.push(panic_finding(target, "SigMFSource::new", &pi)),
+                        Ok(Err(e)) => {
+                            if std::env::var_os("VERIF_DEBUG").is_some() {
+                                eprintln!("SigMFSource ctor: {e}");
+                            }
+                            break;
+                        }
+                        Ok(Ok((src, o))) => {
+                            let b = Built { scratch: None, sink_probe: None, name: "SigMFSource".into(), block: Box::new(src), ins: vec![], outs: vec![Box::new(SOut::new(o))] };
+                            let before = out.len();
+                            drive_and_judge(target, b, &[], feed, &mut out);
+                            if out.len() > before {
+                                break;
+                            }
+                        }
                     }
                 }
             }
